@@ -107,6 +107,10 @@ class World:
         self.pool.add(self.directory.directory_computation)
         self.pool.add(self.dir_disc.discovery_computation)
         self.agents, self.disc, self.rep = {}, {}, {}
+        self.hosted = {}  # agent -> {computation: footprint} really hosted now (changes when a computation migrates)
+        self.departed = None
+        self.lost_requests = set()
+        self.migrated = {}  # computation -> new host
         nb = {c["name"]: set() for c in dep["comps"]}
         for x, y in dep["edges"]:
             nb[x].add(y)
@@ -127,9 +131,11 @@ class World:
                             default_hosting_cost=d["default_hosting_cost"], hosting_costs=dict(d["hosting_costs"]))
             ag = StubAgent(a, adef)
             ag._comps = [StubComp(c["name"], c["footprint"]) for c in dep["comps"] + dep.get("extras", []) if c["agent"] == a]
+            self.hosted.setdefault(a, {}).update({c["name"]: c["footprint"] for c in dep["comps"] + dep.get("extras", []) if c["agent"] == a})
             disc = Discovery(a, "addr_" + a)
             disc.use_directory("orchestrator", "addr_o")
             rep = ucs.build_replication_computation(ag, disc)
+            rep.k_target = dep["k"]  # what ResilientAgent.replicate(k) does before calling replicate(k)
             self.agents[a], self.disc[a], self.rep[a] = ag, disc, rep
             self.pool.add(disc.discovery_computation)
             self.pool.add(rep)
@@ -157,7 +163,7 @@ class World:
             k = w.dep["k"]
             agent = w.agents[a]
             # from the harness' own deployment description (not through agent.computations(), which is code under test)
-            remaining = w.dep["agent_defs"][a]["capacity"] - sum(c["footprint"] for c in w.dep["comps"] + w.dep.get("extras", []) if c["agent"] == a)
+            remaining = w.dep["agent_defs"][a]["capacity"] - sum(w.hosted[a].values())
             held = dict(rep.hosted_replicas)
             owners = sorted({o for o, f in held.values()})
             worst = 0
@@ -181,6 +187,17 @@ class World:
 
         rep.replication_done = done
         rep._accept_replica = accept
+        orig_lost = rep._answer_lost_requests
+
+        def answer_lost(agent):
+            # observation: searches that had a request pending at an agent that has left (what that agent had relayed, and
+            # the replicas accepted further on that path, are unknown to the owner)
+            for rq_agt, rq_comp in list(rep._pending_requests):
+                if rq_agt == agent:
+                    w.lost_requests.add(rq_comp)
+            return orig_lost(agent)
+
+        rep._answer_lost_requests = answer_lost
 
     def deploy(self, drain=True):
         for a in self.dep["agents"]:
@@ -200,7 +217,7 @@ class World:
             self.pool.run(self.pool.steps + 5000)
 
 
-def run_dep(dep, seed, choices=None, harvest=None):
+def run_dep(dep, seed, choices=None, harvest=None, migration=False):
     rng = _r.Random(seed)
     w = World(dep, seed, choices=choices)
     if harvest is not None:
@@ -229,7 +246,121 @@ def run_dep(dep, seed, choices=None, harvest=None):
     status = "quiescent" if not w.pool.pending() and not pending else "budget"
     if w.pool.errors:
         status = "error"
+    if status == "quiescent" and migration and rng.random() < 0.4 and not check(w, status):
+        if migrate(w, rng):
+            status = "quiescent" if not w.pool.pending() else "budget"
+            if w.pool.errors:
+                status = "error"
     return w, status
+
+
+def migrate(w, rng):
+    """what a departure and its repair do to replication, on the deterministic scheduler: agent O leaves (its replication
+    computation stops and drops the replicas it held, its computations and the agent are unregistered), each of its
+    computations that has a replica is activated on one of the holders (registered there, handed to that agent's
+    replication computation, its replica dropped, replicated again at level k), the other holders drop their old replica;
+    these steps are injected at random points of a random FIFO schedule. Returns False when no agent can leave."""
+    dep = w.dep
+    final = {}
+    for a, reports in w.done.items():
+        for c, hosts in reports[-1].items():
+            final[c] = hosts
+    cands = [a for a in dep["agents"] if any(final.get(c["name"]) for c in dep["comps"] if c["agent"] == a)]
+    if len(dep["agents"]) < 3 or not cands:
+        return False
+    O = rng.choice(cands)
+    w.departed = O
+    fpt = {c["name"]: c["footprint"] for c in dep["comps"]}
+    ops = []
+    setups = []  # every candidate sets the repair up (repair_ready) before any repair computation runs (repair_run)
+    # the departing agent stops (ResilientAgent._on_stop, Agent._on_stop)
+    leave = [lambda: w.rep[O].stop()]
+    leave.append(lambda: w.disc[O].unregister_computation(w.rep[O].name))
+    for c in [c["name"] for c in dep["comps"] if c["agent"] == O]:
+        leave.append(lambda c=c: w.disc[O].unregister_computation(c, O))
+    leave.append(lambda: w.disc[O].unregister_agent(O))
+    ops.append(("leave", O, leave))
+    for c in [c["name"] for c in dep["comps"] if c["agent"] == O]:
+        holders = [h for h in final.get(c, []) if h != O]
+        if not holders:
+            continue
+        N = rng.choice(holders)
+        w.migrated[c] = N
+
+        def activate(c=c, N=N):
+            # setup_repair forgets the old host locally; the winner deploys the computation and re-replicates it
+            try:
+                w.disc[N].unregister_computation(c, publish=False)
+            except Exception:
+                pass
+            w.agents[N]._computations[c] = StubComp(c, fpt[c])
+            w.hosted[N][c] = fpt[c]
+            w.disc[N].register_computation(c, N, "addr_" + N)
+            for n_ in sorted(w.nb[c]):  # Agent.add_computation subscribes to the neighbours of the computation it adds
+                if n_ not in w.agents[N]._computations:
+                    w.disc[N].subscribe_computation(n_)
+            w.rep[N].add_computation(w.comp_defs[c], fpt[c])
+            if c in w.rep[N].hosted_replicas:
+                w.rep[N].remove_replica(c)
+            w.rep[N].replicate(dep["k"], [c])
+
+        def setup(c=c, h=None):
+            # ResilientAgent.setup_repair: every candidate forgets the orphan's former host locally
+            try:
+                w.disc[h].unregister_computation(c, publish=False)
+            except Exception:
+                pass
+
+        setups.append(("setup", N, lambda c=c, N=N: setup(c, N)))
+        ops.append(("activate", N, [activate]))
+        for h in holders:
+            if h != N:
+                def drop(c=c, h=h, N=N):
+                    # a losing candidate drops the replica given by the former host (not one already accepted from N)
+                    held = w.rep[h].hosted_replicas.get(c)
+                    if held is not None and held[0] != N:
+                        w.rep[h].remove_replica(c)
+
+                setups.append(("setup", h, lambda c=c, h=h: setup(c, h)))
+                ops.append(("drop", h, [drop]))
+    leave_op = ops.pop(0)
+    rng.shuffle(setups)
+    rng.shuffle(ops)
+    # setups first, then the ends of the repair computations; the departing agent's own steps keep their order and start at
+    # a random point; everything is interleaved with deliveries
+    flat = list(setups)
+    for kind, a, fns in ops:
+        for fn in fns:
+            flat.append((kind, a, fn))
+    at = rng.randint(0, len(flat))
+    for j, fn in enumerate(leave_op[2]):
+        flat.insert(min(len(flat), at + j * rng.randint(1, 2)), ("leave", O, fn))
+    # keep the departing agent's steps in their own order
+    order_ = [x for x in flat if x[0] == "leave"]
+    it_ = iter(leave_op[2])
+    flat = [(k_, a_, next(it_)) if k_ == "leave" else (k_, a_, f_) for k_, a_, f_ in flat]
+    budget = 400 * len(dep["agents"]) * len(dep["comps"]) + 4000
+    start = w.pool.steps
+    gone = False
+    while flat or w.pool.pending():
+        if w.pool.errors or w.pool.steps - start > budget:
+            break
+        if flat and (rng.random() < 0.4 or not w.pool.pending()):
+            kind, a, fn = flat.pop(0)
+            if kind == "leave" and not gone:
+                # _on_stop runs once the agent's loop is over: nothing is delivered to its computations any more (what they
+                # sent before is still on its way), but they can still send
+                gone = True
+                for n in (w.rep[O].name, w.disc[O].discovery_computation.name):
+                    w.pool.comps.pop(n, None)
+                    if n in w.pool.order:
+                        w.pool.order.remove(n)
+            w.pool.call(w.rep[a].name if kind != "leave" else w.disc[a].discovery_computation.name, fn)
+        else:
+            if not w.pool.step() and not flat:
+                break
+    w.hosted.pop(O, None)
+    return True
 
 
 def check(w, status):
@@ -248,14 +379,33 @@ def check(w, status):
     if status == "budget":
         P.append(("replication-does-not-terminate", "replication messages still flowing after the step budget (%d pending)" % w.pool.pending()))
         return P
+    gone = w.departed
     for a in dep["agents"]:
-        if not w.done.get(a):
+        if not w.done.get(a) and a != gone:
             P.append(("agent-never-reported-done", "%s never called replication_done (quiescent)" % a))
-    owner = {c["name"]: c["agent"] for c in dep["comps"]}
+    owner = {c["name"]: c["agent"] for c in dep["comps"] if c["agent"] != gone}
+    owner.update(w.migrated)  # computations of the departed agent activated on a replica holder; the others are lost
+    ctx = "" if gone is None else " [after the departure of %s, computations activated on %r]" % (gone, w.migrated)
+    # a replication (and every request passing through an agent) waits until the hosts of that agent's neighbours are known: when
+    # a computation of the departed agent had no replica it is lost for good and its neighbours' agents wait for ever; progress
+    # is only expected when nothing was lost
+    lost = [c["name"] for c in dep["comps"] if c["agent"] == gone and c["name"] not in w.migrated]
+    for c, n_ in w.migrated.items():
+        if not lost and c not in (w.done.get(n_) or [{}])[-1]:
+            P.append(("migrated-computation-never-replicated-again", "%s activated on %s: its new host never reported a replication of it%s" % (c, n_, ctx)))
     for a, reports in w.done.items():
+        if a == gone:
+            continue
         final = reports[-1]
+        if gone is not None:
+            # after a departure a re-replication may be waiting for a neighbour that is lost for good and never report again:
+            # what the owner knows now (its table of replica hosts) is judged, not its last report
+            final = {c: sorted(h) for c, h in w.rep[a]._replica_hosts.items()}
         for c, hosts in final.items():
             if owner.get(c) != a:
+                continue
+            if gone in hosts:
+                P.append(("departed-agent-still-counted-as-replica-host", "%s (owner %s) replica hosts %r%s" % (c, a, hosts, ctx)))
                 continue
             if len(hosts) != len(set(hosts)):
                 P.append(("duplicate-hosts", "%s replica hosts %r" % (c, hosts)))
@@ -274,10 +424,46 @@ def check(w, status):
                 P.append(("replica-not-in-directory", "%s hosts %r but the directory lists %r" % (c, hosts, sorted(reg))))
     # every held replica must be known to its owner's final report
     for h, rep in w.rep.items():
+        if h == gone:
+            continue
         for c, (o, f) in rep.hosted_replicas.items():
+            if o == gone:
+                if c in w.migrated:
+                    P.append(("stale-replica-kept-after-migration", "%s still holds the replica of %s given by the departed %s%s" % (h, c, o, ctx)))
+                continue  # replica of a lost computation: nobody is there to manage it any more
             rep_o = (w.done.get(o) or [{}])[-1]
+            if gone is not None:
+                # an answer relayed by the departing agent can be lost with it: the owner then does not know a replica that was
+                # accepted; what the property states is judged on the holders themselves below
+                continue
             if h not in rep_o.get(c, []):
-                P.append(("held-replica-unknown-to-owner", "%s holds a replica of %s but owner %s reported hosts %r" % (h, c, o, rep_o.get(c))))
+                P.append(("held-replica-unknown-to-owner", "%s holds a replica of %s but owner %s reported hosts %r%s" % (h, c, o, rep_o.get(c), ctx)))
+    if gone is not None:
+        # the clauses of the property on the replicas really held after the departure and the migrations
+        holders = {}
+        for h, rep in w.rep.items():
+            if h != gone:
+                for c, (o, f) in rep.hosted_replicas.items():
+                    if o != gone:
+                        holders.setdefault(c, []).append(h)
+        for c, hs in holders.items():
+            if len(hs) > k and c in w.lost_requests:
+                # the owner's search had a request pending at the departing agent: a replica accepted further on that path
+                # was never reported back (relay lost), the owner placed another one; departures are outside what the
+                # property quantifies over, this is counted, not judged
+                continue
+            if len(hs) > k:
+                P.append(("too-many-replicas", "%s is replicated on %r for k=%d (replicas really held)" % (c, sorted(hs), k)))
+            if owner.get(c) in hs:
+                P.append(("owner-hosts-its-replica", "%s is hosted and replicated on %s" % (c, owner.get(c))))
+            try:
+                reg = w.dir_disc.replica_agents(c)
+            except UnknownComputation:
+                reg = None
+            if reg is not None and not set(hs) <= set(reg):
+                P.append(("replica-not-in-directory", "%s replicas held by %r but the directory lists %r" % (c, sorted(hs), sorted(reg))))
+    if ctx:
+        P = [(k_, m_ if m_.endswith("]") and "departure" in m_ else m_ + ctx) for k_, m_ in P]
     return P
 
 
@@ -345,7 +531,7 @@ def worker(job):
         for s in range(job["nsched"]):
             sseed = (seed * 1000003 + i * 101 + s) & 0x7FFFFFFF
             try:
-                w, status = run_dep(dep, sseed)
+                w, status = run_dep(dep, sseed, migration=True)
                 P = check(w, status)
             except Exception as e:
                 import traceback
@@ -361,6 +547,9 @@ def worker(job):
             R.count("agents_reported_done", len(w.done))
             R.bump("k", str(dep["k"]))
             R.count("runs_with_replication_requested_before_the_lookups_were_answered", 1 if getattr(w, "early", False) else 0)
+            R.count("runs_with_a_departure_and_migration", 1 if w.departed else 0)
+            R.count("computations_migrated_and_replicated_again", len(w.migrated))
+            R.count("replication_searches_with_a_request_lost_at_the_departing_agent", len(w.lost_requests))
             R.count("runs_with_hosted_computations_outside_replication", 1 if dep.get("extras") else 0)
             R.bump("costs", "fractional" if dep.get("fractional_costs") else "integer")
             R.bump("status", status)
